@@ -263,7 +263,11 @@ func reachesWithout(from, to ssa.Instruction, stop func(ssa.Instruction) bool) b
 
 // allInstrs calls f for each instruction of fn.
 func allInstrs(fn *ssa.Function, f func(ssa.Instruction)) {
+	live := liveBlocks(fn)
 	for _, b := range fn.Blocks {
+		if live != nil && !live[b] {
+			continue // statically dead (constant test): see instrsOf
+		}
 		for _, in := range b.Instrs {
 			f(in)
 		}
